@@ -81,6 +81,10 @@ ASSUMPTIONS = [
     "refused connection / bind error, an exception carrying Tor's 5xx code or text for a rejected command, any "
     "exception for a lost connection, for failed uploads and for a key txtorcon refuses itself; when a filesystem "
     "service's uploads had all FAILED before the SETCONF was rejected either error is accepted",
+    "the order of the local bind and of waiting for the configuration is not judged: only a *resolved* listen() "
+    "without configuration / service / finished descriptor wait is a violation; listen() may fail before the "
+    "configuration is available iff it fails with the injected local-bind error (isinstance CannotListenError), and a "
+    "listenTCP made although the configuration later fails is fine as long as nothing is open once listen() has failed",
     "a version-3 request with an RSA1024 key is judged as a creation failure (listen fails, nothing left open), not as "
     "an 'invalid option combination': no documentation lists it among the refused combinations",
     "on an already connected Tor, loading its configuration (the GETINFO/GETCONF/SETEVENTS CONF_CHANGED that "
@@ -592,9 +596,24 @@ def _run_listen(res, c, fault, steps, w):
     lw = Watch(ep.listen(_Proto()), passthrough=True)
     tor.pipe.pump()
     if c["config"] == "late":
-        if not lw.pending:
+        # The statement orders only success ("resolves - only after the service exists ..."): a *resolved* listen()
+        # without a configuration is a violation.  Whether the local bind happens before or after the configuration
+        # is known is left open, so a listen() that has already *failed* is fine iff it carries the injected local-bind
+        # fault's error; the no-listener-left-open verdict is made in section C either way.
+        if lw.succeeded:
             res.bad("resolved-without-config", "listen() -> %r before the configuration was available" % (lw.outcome()[:2],))
             return
+        if lw.failed:
+            from twisted.internet import error as twerror
+            if not (fault == "bind" and isinstance(lw.failure.value, twerror.CannotListenError)):
+                res.bad("failed-without-fault", "%s: listen() -> %r before the configuration was available and before any "
+                        "fault was injected" % (_describe(c, w), lw.outcome()[:3]))
+                no_leak_early = [(lp.interface, lp.port) for lp in r.listeners]
+                if no_leak_early:
+                    res.bad("listener-leak-on-failure", "%s: listen() failed early but %r is still open" % (
+                        _describe(c, w), no_leak_early))
+                return
+            res.label("bind-failure-reported-before-config")
         if tor.add_onion_lines or tor.setconf_lines:
             res.bad("service-created-without-config", "creating command sent before the configuration was available")
             return
@@ -644,9 +663,9 @@ def _run_listen(res, c, fault, steps, w):
             if not okerr:
                 res.bad("wrong-error", "config failed, listen() failed with %r" % (exc,))
         elif fault == "bind":
-            if not raised or not any(exc is e for e in raised):
-                if not (raised and isinstance(exc, type(raised[0]))):
-                    res.bad("wrong-error", "listenTCP raised %r, listen() failed with %r" % (raised, exc))
+            from twisted.internet import error as twerror
+            if not raised or not isinstance(exc, twerror.CannotListenError):
+                res.bad("wrong-error", "listenTCP raised %r, listen() failed with %r" % (raised, exc))
         if held or other:
             if fault == "bind":
                 res.bad("service-created-without-listener", "listenTCP failed but %r was sent" % ((held + other)[:1],))
@@ -1371,8 +1390,8 @@ MUTANTS = [
      "    log.msg(\"{}: waiting for descriptor uploads.\".format(onion.hostname))\n    yield uploaded_d\n",
      "    log.msg(\"{}: waiting for descriptor uploads.\".format(onion.hostname))\n"),
     ("filesystem-resolves-before-descriptor-wait", "txtorcon/onion.py",
-     "        yield config.save()\n        yield uploaded[0]\n        return fhs\n\n    def __init__(self, config, thedir, ports, version=3, group_readable=0):",
-     "        yield config.save()\n        return fhs\n\n    def __init__(self, config, thedir, ports, version=3, group_readable=0):"),
+     "            raise\n        yield uploaded[0]\n        return fhs\n\n    def __init__(self, config, thedir, ports, version=3, group_readable=0):",
+     "            raise\n        return fhs\n\n    def __init__(self, config, thedir, ports, version=3, group_readable=0):"),
     ("stoplistening-noop", _EP,
      "        \"\"\"IListeningPort API\"\"\"\n        self._local_address.stopListening()\n",
      "        \"\"\"IListeningPort API\"\"\"\n        pass\n"),
@@ -1438,16 +1457,16 @@ MUTANTS = [
      "        \"\"\"IListeningPort API\"\"\"\n        self._local_address.startListening()\n",
      "        \"\"\"IListeningPort API\"\"\"\n        pass\n"),
     ("failed-counts-only-if-upload-rejected", "txtorcon/onion.py",
-     "        elif subtype == 'FAILED':\n            if hostname_matches('{}.onion'.format(args[1])):",
-     "        elif subtype == 'FAILED':\n            if 'REASON=UPLOAD_REJECTED' in args and hostname_matches('{}.onion'.format(args[1])):"),
+     "        elif subtype == 'FAILED':\n            # (like UPLOADED: only for an upload we saw starting)\n            if args[3] in attempted_uploads and hostname_matches('{}.onion'.format(args[1])):",
+     "        elif subtype == 'FAILED':\n            # (like UPLOADED: only for an upload we saw starting)\n            if 'REASON=UPLOAD_REJECTED' in args and args[3] in attempted_uploads and hostname_matches('{}.onion'.format(args[1])):"),
     ("failed-with-other-reason-skipped", "txtorcon/onion.py",
-     "        elif subtype == 'FAILED':\n            if hostname_matches('{}.onion'.format(args[1])):",
-     "        elif subtype == 'FAILED':\n            if [a for a in args[4:] if a.startswith('REASON=') and a != 'REASON=UPLOAD_REJECTED']:\n"
-     "                return\n            if hostname_matches('{}.onion'.format(args[1])):"),
+     "        elif subtype == 'FAILED':\n            # (like UPLOADED: only for an upload we saw starting)\n            if args[3] in attempted_uploads and hostname_matches('{}.onion'.format(args[1])):",
+     "        elif subtype == 'FAILED':\n            # (like UPLOADED: only for an upload we saw starting)\n            if [a for a in args[4:] if a.startswith('REASON=') and a != 'REASON=UPLOAD_REJECTED']:\n"
+     "                return\n            if args[3] in attempted_uploads and hostname_matches('{}.onion'.format(args[1])):"),
     ("failed-without-reason-skipped", "txtorcon/onion.py",
-     "        elif subtype == 'FAILED':\n            if hostname_matches('{}.onion'.format(args[1])):",
-     "        elif subtype == 'FAILED':\n            if not [a for a in args[4:] if a.startswith('REASON=')]:\n"
-     "                return\n            if hostname_matches('{}.onion'.format(args[1])):"),
+     "        elif subtype == 'FAILED':\n            # (like UPLOADED: only for an upload we saw starting)\n            if args[3] in attempted_uploads and hostname_matches('{}.onion'.format(args[1])):",
+     "        elif subtype == 'FAILED':\n            # (like UPLOADED: only for an upload we saw starting)\n            if not [a for a in args[4:] if a.startswith('REASON=')]:\n"
+     "                return\n            if args[3] in attempted_uploads and hostname_matches('{}.onion'.format(args[1])):"),
     ("single-hop-filesystem-accepted", _EP,
      "        if single_hop and not ephemeral:\n", "        if False:\n"),
     ("private-key-filesystem-accepted", _EP,
